@@ -367,24 +367,61 @@ func checkLayerOrder(c *Ctx) {
 			c.Check("C12/order/recv/dispatch-last", rule, e.Pos, ok, "dispatch before label removal / decryption")
 		}
 	}
-	// the checksum covers exactly what follows the 5-byte header, on both sides
+	// the checksum covers exactly what follows the 5-byte header, on both sides:
+	// sender: the bytes checksummed are the bytes appended after the 5-byte header that goes out;
+	// receiver: the bytes checksummed are the bytes after the first five, and they are what is dispatched
 	okS, okR := false, false
-	inspectFn(rs, func(n ast.Node) bool {
-		if call, ok := n.(*ast.CallExpr); ok {
-			if f := c.P.Callee(call); f != nil && core.FuncFullName(f) == "hash/crc32.ChecksumIEEE" && norm(c.P.Canon(call.Args[0])) == "msg" {
-				okS = true
+	nS, nR := 0, 0
+	xsnd := c.flow(rs, map[string]string{})
+	for _, e := range xsnd.Effects {
+		if e.Class != "CRC" {
+			continue
+		}
+		nS++
+		a := e.Detail["arg0"]
+		found := false
+		for _, e2 := range xsnd.Effects {
+			var out string
+			switch e2.Class {
+			case "SINK:packet":
+				out = e2.Detail["arg0"]
+			case "CALL:encryptPayload":
+				out = e2.Detail["arg2"]
+			default:
+				continue
+			}
+			if strings.HasPrefix(out, "append(make([]byte,5,") && strings.Contains(out, ","+a+")") {
+				found = true
 			}
 		}
-		return true
-	})
-	inspectFn(ip, func(n ast.Node) bool {
-		if call, ok := n.(*ast.CallExpr); ok {
-			if f := c.P.Callee(call); f != nil && core.FuncFullName(f) == "hash/crc32.ChecksumIEEE" && norm(c.P.Canon(call.Args[0])) == "buf[5:]" {
-				okR = true
+		if found {
+			okS = true
+		} else {
+			okS = false
+			break
+		}
+	}
+	for _, e := range xi.Effects {
+		if e.Class != "CRC" {
+			continue
+		}
+		nR++
+		a := untok(e.Detail["arg0"])
+		okR = strings.HasSuffix(a, "[5:]")
+		if !okR {
+			break
+		}
+	}
+	for _, e := range xi.Effects {
+		if e.Class == "CALL:Memberlist.handleCommand" && e.Seen["CRC"] > 0 {
+			// the payload dispatched after a checksum test is what was checksummed
+			if !strings.HasSuffix(untok(e.Detail["arg0"]), "[5:]") {
+				okR = false
 			}
 		}
-		return true
-	})
+	}
+	okS = okS && nS > 0
+	okR = okR && nR > 0
 	c.Check("C12/order/checksum-scope", "sender and receiver compute the checksum over the same bytes (everything after the 5-byte header)", rs.Decl.Pos(), okS && okR, fmt.Sprintf("sender over payload:%v receiver over buf[5:]:%v", okS, okR))
 	// stream: compress then encrypt; reader: decrypt then decompress
 	ss := c.MustFunc("Memberlist.rawSendMsgStream")
